@@ -425,6 +425,11 @@ def run_history(ctx, kind, name, hist):
         if ev[0] == "base_adds_wildcard":
             model.base_wild = True
         if ev[0] == "remove_trait":
+            if ev[1] == "b" and model.inst[ev[1]] in ("List", "Map"):
+                # removing the trait removes its companion with whatever
+                # value was stored under the companion's name
+                ctl.__dict__.pop(name + ("_items" if model.inst[ev[1]]
+                                         == "List" else "_"), None)
             model.inst[ev[1]] = False
             model.ro_written[ev[1]] = False
         if ev[0] == "del" and o1[0] == "ok":
